@@ -211,6 +211,9 @@ def c09(ck):
         ("known", "interface a.b\nmethod Match(a: int) -> ()\nmethod Fn() -> ()\n"), ("known", "interface a.b\nmethod M(a: int) -> ()\nerror InvalidParameter (x: int)\n"),
         ("known", "interface a.b\nmethod M() -> ()\nerror MethodNotFound (method: string, x: ?int)\n"), ("known", "interface a.b\nmethod M() -> ()\nerror Struct ()\n"),
         ("known", "interface a.b\nmethod M() -> ()\nerror Self (x: int)\n"),
+        # layout: blanks, line ends and comments between a field name and its colon (column-aligned definitions)
+        ("clean", "interface a.b\ntype Settings (name   : string,\n  limits : (low: int, high: int),\n  mode\n    : (fast, slow))\nmethod Foo(cfg : (a: int), list\t: [](b : ?(c: bool))) -> (entries\n    : [string](k: string))\n"),
+        ("clean", "interface a.b\nmethod M(a # the first\n  : (x : int, y: []( z : string ))) -> (r :(q : (p: int)))\nerror E (why # reason\n : string)\n"),
         ("clean", "interface a.b\nmethod M(a: int) -> ()\nerror InterfaceNotFound (interface: string, hint: ?string)\nerror MethodNotImplemented (method: string)\nerror Result ()\nerror Call (x: int)\nerror Reply ()\nerror Kind ()\n"), ("known", "interface a.b\ntype Self (a: int)\nmethod M() -> ()\n"),
     ]
     texts += special
